@@ -34,7 +34,7 @@ RES=""
 if [ $R0 -eq 0 ] && [ $RB -eq 0 ] && [ $R1 -ne 0 ]; then
   git -C /repo apply /verif/seeded/$ID/patch.diff || exit 2
   for P in "$@"; do
-    OUT=$(cd /verif && VERIF_EVIDENCE_DIR=/verif/work/evidence-seeded ./check $P 2>&1 | tail -3)
+    OUT=$(cd /verif && VERIF_EVIDENCE_DIR=/verif/work/evidence-seeded ./check $P 2>&1 | grep -v "^KNOWN-FINDING" | tail -4)
     echo "--- check $P on seeded tree:"; echo "$OUT"
     if echo "$OUT" | grep -q "^VIOLATION property=$P"; then RES="$RES $P:caught"; else RES="$RES $P:missed"; fi
     for f in $(echo "$OUT" | grep -o 'replay=[^ ]*' | cut -d= -f2); do cp $f /verif/seeded/$ID/ 2>/dev/null; done
